@@ -339,6 +339,7 @@ def _model_group(rep, d, vary, maxcalls, label, replay_edges=True):
     paths = tlc.edge_cover_paths(g)
     rep.add("graph_paths_total", len(paths))
     if SAMPLE is not None and len(paths) > SAMPLE:
+        rep.add("groups_sampled")
         # quick tier: fork() costs ~6 ms in this sandbox; replay a seeded sample of the covering paths
         rnd = random.Random(RSEED * 1000 + len(paths))
         paths = rnd.sample(paths, SAMPLE)
@@ -500,7 +501,9 @@ def run(rep, tier, seed):
     ]
     import beartype  # noqa: F401  (imported, unused: children fork from here)
     global POOL, SAMPLE, RSEED
-    SAMPLE, RSEED = (160 if tier == "quick" else None), seed
+    # thorough: every covering path of every group up to 5000 paths per group (the three-option group
+    # violation_type x violation_param_type x violation_return_type has > 100 000 edges: sampled)
+    SAMPLE, RSEED = (160 if tier == "quick" else 5000), seed
     with scratch("c17-") as d, ForkPool(16) as POOL:
         _mutant(rep, d)
         groups = [(["is_debug"], 3), (["is_color", "is_random"], 2), (["violation_type", "violation_door_type"], 2),
@@ -520,7 +523,7 @@ def run(rep, tier, seed):
         _trace_validate(rep, d, seed, 200 if tier == "quick" else 3000, 12 if tier == "quick" else 20)
         _env_var(rep)
         _repo_tests_trace(rep, d)
-    rep.cov["exhaustive"] = tier == "thorough"
+    rep.cov["exhaustive"] = tier == "thorough" and not rep.cov.get("groups_sampled")
 
 
 def replay(rep, path):
